@@ -29,10 +29,13 @@ type nlCase struct {
 	Ops   []nlOp `json:"ops"`
 	// Ghost (probes of known finding ghost-conn-after-server-close only): the server may close a connection while client data is in flight
 	Ghost bool `json:"ghost,omitempty"`
+	// Backlog: 0 = Listen (default backlog 4096), otherwise ListenWithBacklog: with 1 or 2 the session goroutine has to wait
+	// for Accept before it can hand over the next connection - every stream must surface all the same
+	Backlog int `json:"backlog,omitempty"`
 }
 
 func genNlCase(t *rapid.T) nlCase {
-	c := nlCase{MemFd: rapid.Bool().Draw(t, "memfd")}
+	c := nlCase{MemFd: rapid.Bool().Draw(t, "memfd"), Backlog: rapid.SampledFrom([]int{0, 0, 1, 2}).Draw(t, "backlog")}
 	nops := rapid.IntRange(3, 40).Draw(t, "nops")
 	nsess, nstreams := 0, 0
 	sizes := rapid.SampledFrom([]int{1, 2, 5, 100, 4096, 8172, 8173, 20000, 70000})
@@ -121,7 +124,14 @@ func acceptTimed(ln net.Listener, d time.Duration) (net.Conn, error, bool) {
 
 func nlRun(c nlCase, r *runCtx) {
 	path := "/tmp/" + uniqueName("nl") + ".sock"
-	ln, err := Listen(path)
+	var ln net.Listener
+	var err error
+	if c.Backlog > 0 {
+		ln, err = ListenWithBacklog(path, c.Backlog)
+		r.Label("small-backlog")
+	} else {
+		ln, err = Listen(path)
+	}
 	if err != nil {
 		harnessFail("Listen: %v", err)
 	}
@@ -264,6 +274,9 @@ func nlRun(c nlCase, r *runCtx) {
 			}
 			if expectAccept() == 0 {
 				continue
+			}
+			if c.Backlog > 0 && expectAccept() > c.Backlog {
+				r.Label("backlog-exceeded")
 			}
 			type res struct {
 				c   net.Conn
@@ -687,7 +700,7 @@ func nlRun(c nlCase, r *runCtx) {
 
 func TestVerifC19NetListener(t *testing.T) {
 	runCheck(t, checkDef[nlCase]{name: "TestVerifC19NetListener", lastCase: true,
-		rule: "histories of 3-40 ops against Listen(path): 1-3 client sessions dialling, up to 8 streams, client Write / server conn.Read / conn.Write / client Read of sizes 1..70000, read deadline with no data, Read(nil), Close from either side, listener Close at a generated point; " +
+		rule: "histories of 3-40 ops against Listen(path) or ListenWithBacklog(path, 1|2): 1-3 client sessions dialling, up to 8 streams, client Write / server conn.Read / conn.Write / client Read of sizes 1..70000, read deadline with no data, Read(nil), Close from either side, listener Close at a generated point; " +
 			"oracle: Accept yields exactly one connection per stream that flushed data (matched by a 4-byte stream tag), Write returns (len(p), nil), Read returns 1..len(p) in-order bytes, deadlines honoured, Accept fails promptly after Close, sessions end once their connections are closed; " +
 			"non-trivial = >= 2 streams or a listener close in mid-history; distinct by case hash",
 		assumptions: []string{"reads are issued for bytes already flushed, or with a short deadline when nothing is flushed", "connections that were queued but never accepted when the listener closed cannot be closed by anybody and are not held against their session"},
